@@ -142,8 +142,16 @@ def check(ctx):
     ctx.rule('C17.R6', 'file contents flow into the key losslessly: read() appended as is, or through hashlib digests / length prefixes only')
     INJECTIVE_CALLS = ('read', 'bytes', 'bytearray', 'digest', 'hexdigest', 'sha256', 'sha1', 'sha512', 'md5', 'blake2b', 'encode', 'len', 'pack', 'repr', 'str')
     n6 = 0
-    for n in walk_no_nested(f):
-        if isinstance(n, ast.Call) and isinstance(n.func, ast.Attribute) and n.func.attr == 'read':
+    # a module function that reads a file and returns the contents is a read at its call sites; its own body is examined too
+    readers = {g_.name: g_ for g_ in m.functions.values() if g_ is not f and g_.name != f.name
+               and any(isinstance(c_, ast.Call) and isinstance(c_.func, ast.Attribute) and c_.func.attr == 'read' for c_ in walk_no_nested(g_))
+               and any(isinstance(c_, ast.Call) and isinstance(c_.func, ast.Name) and c_.func.id == g_.name for c_ in walk_no_nested(f))}
+    sites6 = [(f, n) for n in walk_no_nested(f) if isinstance(n, ast.Call) and ((isinstance(n.func, ast.Attribute) and n.func.attr == 'read')
+                                                                                  or (isinstance(n.func, ast.Name) and n.func.id in readers))]
+    for g_ in readers.values():
+        sites6 += [(g_, n) for n in walk_no_nested(g_) if isinstance(n, ast.Call) and isinstance(n.func, ast.Attribute) and n.func.attr == 'read']
+    for f6, n in sites6:
+        if True:
             # climb to the enclosing statement: every call between read() and the statement must be injective
             n6 += 1
             p = getattr(n, '_parent', None)
@@ -159,7 +167,7 @@ def check(ctx):
             # a local holding the contents that is transformed later
             if bad is None and isinstance(p, ast.Assign) and isinstance(p.targets[0], ast.Name):
                 var = p.targets[0].id
-                for c in walk_no_nested(f):
+                for c in walk_no_nested(f6):
                     if isinstance(c, ast.Call) and isinstance(c.func, ast.Attribute) and isinstance(c.func.value, ast.Name) and c.func.value.id == var \
                             and c.func.attr not in INJECTIVE_CALLS:
                         bad = c
